@@ -373,10 +373,10 @@ def some_perms(d):
     return ps
 
 
-def check_same_physics(site, ref, canon, where, names=None):
-    """All operators of `site` equal those of `ref` in the label basis; `perm` relation to conserve=None holds."""
+def check_same_physics(site, ref, canon, where):
+    """All operators of `site` equal those of `ref` in the label basis, and the generic invariants hold."""
     out = []
-    for n in sorted(site.opnames if names is None else names):
+    for n in sorted(site.opnames):
         if not close(lab(site, canon, n), lab(ref, canon, n)):
             out.append((where + ':operator-changed', 'operator %s differs in the label basis' % n))
             break
